@@ -442,7 +442,10 @@ func c09Stress(args []string) {
 		// the same calls, alone
 		for k := 0; k < K; k++ {
 			for o := 0; o < nops; o++ {
-				want := ops[k][o].run()
+				var want string
+				if p := protect(func() { want = ops[k][o].run() }); p != "" {
+					want = p // a panic of the call made alone: reported through the comparison below
+				}
 				if strings.Contains(ops[k][o].name, "result held") {
 					want = "stable" // this operation judges itself (against encoding/json): alone it must be stable too
 				}
